@@ -662,13 +662,25 @@ impl RoutingCheck {
                     WasmMsg::Execute { contract_addr: chain[0].to_string(), msg: to_json_binary(&PMsg { n: 0 }).unwrap(), funds: vec![] }.into()
                 };
                 let sudo_target = chain.first().cloned();
+                // a user's message may be the second of a batch: a bank send goes first (then the module's
+                // failure must undo that send as well)
+                let batched = chain.is_empty() && case.sibling && case.modes[0] != Mode::Fail && slot != 0;
+                let first_of_batch: CosmosMsg<XMsg> = BankMsg::Send { to_address: b.other.to_string(), amount: vec![coin(3, "eth")] }.into();
                 RET.with(|c| c.set(case.ret % 3));
                 let top_data: RefCell<Option<(Option<Vec<u8>>, Vec<cosmwasm_std::Event>)>> = RefCell::new(None);
                 let res = catch(|| {
                     if via == Via::Sudo {
                         app.wasm_sudo(sudo_target.unwrap(), &PMsg { n: 0 }).map(|_| ()).map_err(|e| e.to_string())
                     } else {
-                        app.execute(user, top).map(|r| *top_data.borrow_mut() = Some((r.data.map(|d| d.to_vec()), r.events))).map_err(|e| e.to_string())
+                        if batched {
+                            app.execute_multi(user, vec![first_of_batch.clone(), top]).map(|mut rs| {
+                                if let Some(r) = rs.pop() {
+                                    *top_data.borrow_mut() = Some((r.data.map(|d| d.to_vec()), r.events));
+                                }
+                            }).map_err(|e| e.to_string())
+                        } else {
+                            app.execute(user, top).map(|r| *top_data.borrow_mut() = Some((r.data.map(|d| d.to_vec()), r.events))).map_err(|e| e.to_string())
+                        }
                     }
                 });
                 RET.with(|c| c.set(0));
@@ -707,6 +719,17 @@ impl RoutingCheck {
                 ensure!(wasm_seen == wasm_want, "C17:wasm-module-bypassed", "{:?} from {:?}: the configured wasm module saw the calls {:?}, the call chain is {:?}", k, case.origin, wasm_seen, wasm_want);
                 let mine: Vec<&LogEntry> = log.iter().filter(|e| e.slot != "wasm").filter(|e| !(e.slot == "bank" && e.op == "query" && e.payload.contains("all_balances"))).filter(|e| !(e.slot == "bank" && eslot == "staking" && mode == Mode::Default)).collect();
                 let mut mine = mine;
+                if batched {
+                    let (tslot, top_, tpayload) = expected_log(&first_of_batch);
+                    let is_first = |e: &LogEntry| e.slot == tslot && e.op == top_ && e.payload == tpayload && e.sender == b.user.as_str();
+                    if !log.iter().any(is_first) {
+                        fail!("C17:message-not-delivered", "{:?}: the bank send that goes first in the batch never reached the bank module; log: {:?}", k, log);
+                    }
+                    if let Some(p) = mine.iter().position(|e| is_first(e)) {
+                        mine.remove(p);
+                    }
+                    cx.label("exec:second-of-a-batch");
+                }
                 if self_funded {
                     // the funds attached to the self-call: one bank send from the contract to itself
                     // (two coins, not in denomination order: the list must arrive as attached)
@@ -920,7 +943,7 @@ impl Check for RoutingCheck {
         Spec {
             id: "C17",
             level: "exploration",
-            rule: "generated: a mode (crate's real keeper/default, crate's accepting module, crate's failing module) for each of the seven router slots, a message (16 kinds over bank, custom, staking, distribution, ibc, gov, stargate, any) or query (9 kinds) or sudo with generated payload, an entry point of the emitting contract (execute, migrate, sudo, or the reply to a helper call that succeeded or failed), an origin (top level; chain of 1-3 contracts written for the chain's message type; chain of 1-3 Empty-typed contracts lifted by ContractWrapper), a reply_on mode, an optional earlier sibling write, an optional earlier call of the contract to itself with funds attached (the transfer must reach the bank slot) and an optional earlier sibling that fails uncaught (then nothing may be delivered); oracle: exactly one log entry, in the slot configured for that kind, with the dispatching contract/user as sender and the payload intact, no other module called, caller sees Ok iff the module accepted (or the failure is caught by reply), the data and events an accepting module answers (none / present-but-empty / bytes plus an event) reach the caller or the reply unchanged, failed calls leave root storage byte-identical including the marker the module wrote before failing. The cross product {kind} x {origin} x {mode} x {Never, Always} is enumerated in every run. Non-trivial: a non-bank kind from depth>=1, or the lifted origin, or a failing module after a sibling write, or a query from inside a contract; distinct = distinct serialised case",
+            rule: "generated: a mode (crate's real keeper/default, crate's accepting module, crate's failing module) for each of the seven router slots, a message (16 kinds over bank, custom, staking, distribution, ibc, gov, stargate, any) or query (9 kinds) or sudo with generated payload, an entry point of the emitting contract (execute, migrate, sudo, or the reply to a helper call that succeeded or failed), an origin (top level, alone or as the second message of a batch whose first is a bank send; chain of 1-3 contracts written for the chain's message type; chain of 1-3 Empty-typed contracts lifted by ContractWrapper), a reply_on mode, an optional earlier sibling write, an optional earlier call of the contract to itself with funds attached (the transfer must reach the bank slot) and an optional earlier sibling that fails uncaught (then nothing may be delivered); oracle: exactly one log entry, in the slot configured for that kind, with the dispatching contract/user as sender and the payload intact, no other module called, caller sees Ok iff the module accepted (or the failure is caught by reply), the data and events an accepting module answers (none / present-but-empty / bytes plus an event) reach the caller or the reply unchanged, failed calls leave root storage byte-identical including the marker the module wrote before failing. The cross product {kind} x {origin} x {mode} x {Never, Always} is enumerated in every run. Non-trivial: a non-bank kind from depth>=1, or the lifted origin, or a failing module after a sibling write, or a query from inside a contract; distinct = distinct serialised case",
             assumptions: vec![
                 "with a real keeper in a slot only requests that keeper supports are sent (delegate, set-withdraw-address, bank send/burn by funded senders)",
                 "CosmosMsg::Custom cannot be emitted by an Empty-typed contract (excluded for the lifted origin)",
